@@ -2,7 +2,7 @@
 (* G: the cases replayed into the engine.  Each case is [mode, cfg, prog] and is printed together
    with the outcome the specification computes (Outcome).  Families:
      - per limit: a configuration with that limit small and programs that end at limit-1, limit,
-       limit+1 (count limits: that many ops; size limits: one op of that size; byte counters:
+       limit+1; thorough tier: ordered triples of limit probes (count limits: that many ops; size limits: one op of that size; byte counters:
        the limit placed one below / at / one above every threshold of the program)
      - pairs of limits: probe of limit A (at / one beyond) followed by probe of limit B, in both
        orders, under a configuration where both are small
@@ -136,6 +136,12 @@ FPairs(m) == LET e == EnvOf(m) IN
      ab \in {x \in Kinds \X Kinds : x[1] # x[2]}, da \in {0, 1}, db \in {0, 1}}
   \cup {Case(m, PCfg(a, Big(e), e), POps(a, da, e) \o POps(a, db, e)) : a \in Kinds, da \in {0, 1}, db \in {0, 1}}
 
+(* thorough: three limits tight at once; the first two probes end AT their limit, the third at / beyond *)
+FTriples(m) == LET e == EnvOf(m) IN
+  IF Tier = 1 THEN {}
+  ELSE {Case(m, ApplyAll(<<x[1], x[2], x[3]>>, Big(e), e), POps(x[1], 0, e) \o POps(x[2], 0, e) \o POps(x[3], d, e)) :
+          x \in {y \in Kinds \X Kinds \X Kinds : y[1] # y[2] /\ y[2] # y[3] /\ y[1] # y[3]}, d \in {0, 1}}
+
 (* ---- the protocol's default configuration at its real values ---- *)
 FDefault(m) == LET e == EnvOf(m) d == Default IN
   {Case(m, d, Rep(k, Call(MinCall))) : k \in {d.depth - 2, d.depth - 1, d.depth}}
@@ -146,7 +152,7 @@ FDefault(m) == LET e == EnvOf(m) d == Default IN
   \cup {Case(m, d, <<PanicOp(x)>>) : x \in Around(d.panic)}
 
 Cases == UNION {FDepth(m) \cup FEvents(m) \cup FLogs(m) \cup FSizes(m) \cup FTrack(m) \cup FHeap(m)
-                \cup FPairs(m) \cup FDefault(m) : m \in Modes}
+                \cup FPairs(m) \cup FTriples(m) \cup FDefault(m) : m \in Modes}
 Usable == {x \in Cases : OkProg(x.prog) /\ Admits(x.cfg, EnvOf(x.mode))}
 
 Init == c \in Usable
